@@ -530,10 +530,12 @@ func (s *scope) Close() error {
 	if !s.closed.CAS(false, true) {
 		return nil
 	}
+	verifYield(66)
 
 	close(s.done)
 
 	if s.root {
+		verifYield(65)
 		verifYield(63)
 		s.reportRegistry()
 		verifYield(64)
